@@ -5,7 +5,7 @@ RULE = ("logs of 1..40 events (quick) / ..150 (thorough) built by random Add/Add
         "neighbours; at the final state every event; each in-range answer is put on the wire and verified against snapshot(q).history and snapshot(current).hyper. "
         "distinct = (case, state, event, version); non-trivial = existence answer with a non-empty history path; "
         "hyperb: the hyper tree alone - after every Add/AddBulk/reopen three searches (a stored key, a key sharing a long prefix, a random key) through "
-        "HyperTree.QueryMembership, value and audit path compared with the batch-level Coq search (HyperBatch.bfind) clientv: the real client.HTTPClient (MembershipAutoVerify, MembershipDigest+MembershipVerify, IncrementalAutoVerify, Incremental+IncrementalVerify) over JSON against an authentic snapshot store and a server that is honest, answers for other versions/pairs, relabels them, presents the proof of a stored event for a never-added digest sharing its prefix (incl. a 64-byte audit entry), a proof of absence for a present event, tampered fields, or serves a forked log; logs of ~12, ~35 and >1040 events (two-digit heights on the wire); oracle: the published log.")
+        "HyperTree.QueryMembership, value and audit path compared with the batch-level Coq search (HyperBatch.bfind) clientv: the real client.HTTPClient (MembershipAutoVerify, MembershipDigest+MembershipVerify, IncrementalAutoVerify, Incremental+IncrementalVerify) over JSON against an authentic snapshot store and a server that is honest, answers for other versions/pairs, relabels them, presents the proof of a stored event for a never-added digest sharing its prefix (incl. a 64-byte audit entry), a proof of absence for a present event, tampered fields, or serves a forked log; logs of ~12, ~35 and >1040 events (two-digit heights on the wire); oracle: the published log. canonlarge: a log of >1300 events closed and reopened (more than 1000 recovery tiles), old events still provable; server: every (event, version) pair through the real HTTP API of a running server, version always sent explicitly.")
 
 
 def run(v, tier, seed, replay):
